@@ -372,6 +372,22 @@ def run(ctx):
             except Exception as ex:
                 rep(f"raised {type(ex).__name__}: {ex}")
             ctx.case((name, "index dtype", np.dtype(dt).name), nontrivial=True)
+            # the neighbour helpers asked with the vertex / edge index in every integer form a caller has (a Python int, the items of np.arange, of the edge table itself)
+            try:
+                ln = Lattice(P.copy(), E.astype(dt), C.copy())
+                ends = np.asarray(E, dtype=int)
+                for v in sorted({0, 1, len(P) // 2, len(P) - 2, len(P) - 1}):
+                    want = None
+                    for form in (int, np.int64, np.intp, np.int32, dt, np.uint64):
+                        vi, ei = gu.vertex_neighbours(ln, form(v))
+                        got = sorted((int(a), int(b)) for a, b in zip(vi, ei))
+                        if want is None:
+                            want = sorted((int(ends[e_, 0] + ends[e_, 1] - v) if ends[e_, 0] != ends[e_, 1] else v, e_) for e_ in range(len(ends)) if v in ends[e_])
+                        if got != want:
+                            rep(f"vertex_neighbours(l, {form.__name__}({v})) = {got} is not the list of (far end, edge) pairs of the edges at vertex {v} ({want})"); break
+                    ctx.count("vertex_neighbours_index_forms")
+            except Exception as ex:
+                rep(f"vertex_neighbours raised {type(ex).__name__}: {ex}")
     # a lattice with more than a thousand edges: edge-neighbour table against the helper and against the definition, coordination, adjacency matrix
     for name, lb in [("honey21", eg.honeycomb_lattice(21))] + ([] if ctx.tier == "quick" else [("vor900", zoo.voronoi(rng, 900))]):
         lb = zoo.rebuild(lb)
@@ -403,11 +419,13 @@ def run(ctx):
         except Exception:
             continue
         ran = []
-        for oname, op in (("make_dual", lambda: gu.make_dual(l)), ("make_dual(point averages)", lambda: gu.make_dual(l, True)), ("plaquette_spanning_tree", lambda: gu.plaquette_spanning_tree(l)),
+        raw0 = [np.array(a).copy() for a in (l.vertices.positions, l.edges.indices, l.edges.crossing, l.edges.vectors)]
+        panel_ops = lambda l: (("make_dual", lambda: gu.make_dual(l)), ("make_dual(point averages)", lambda: gu.make_dual(l, True)), ("plaquette_spanning_tree", lambda: gu.plaquette_spanning_tree(l)),
                           ("plaquette_spanning_tree(False)", lambda: gu.plaquette_spanning_tree(l, False)), ("vertices_to_polygon", lambda: gu.vertices_to_polygon(l)),
                           ("remove_trailing_edges", lambda: gu.remove_trailing_edges(l)), ("cut_boundaries", lambda: cut_boundaries(l)),
                           ("fluxes_from_ujk", lambda: ff.fluxes_from_ujk(l, np.ones(l.n_edges, dtype=np.int8))), ("ujk_from_fluxes", lambda: ff.ujk_from_fluxes(l, np.ones(l.n_plaquettes, dtype=np.int8))),
-                          ("permute_vertices", lambda: permute_vertices(l, rng.permutation(l.n_vertices))), ("lloyd_relaxation", lambda: gu.lloyd_relaxation(l, 1) if fam == "vor" else None)):
+                          ("permute_vertices", lambda: permute_vertices(l, rng.permutation(l.n_vertices))), ("lloyd_relaxation", lambda: gu.lloyd_relaxation(l, 1) if fam == "vor" else None))
+        for oname, op in panel_ops(l):
             try:
                 with warnings.catch_warnings():
                     warnings.simplefilter("ignore")
@@ -423,8 +441,54 @@ def run(ctx):
                 key = [k for k in before if before[k] != after[k]]
                 ctx.impl_violation(f"{name}: after {oname}(lattice) the lattice's own table(s) {key} differ from what they were (and from the edge / plaquette lists)",
                                    dict(case=name, after=oname, tables=key, lattice=zoo.lat_to_json(l))); break
+            raw1 = (l.vertices.positions, l.edges.indices, l.edges.crossing, l.edges.vectors)
+            changed = [nm for nm, a, b in zip(("positions", "edge indices", "crossings", "edge vectors"), raw0, raw1) if a.dtype != b.dtype or not np.array_equal(a, b)]
+            if changed:
+                ctx.impl_violation(f"{name}: {oname}(lattice) changed the lattice's own {changed}: the cached tables were computed from other arrays than the lattice now has",
+                                   dict(case=name, after=oname, arrays=changed, lattice=zoo.lat_to_json(l))); break
+        # the same operations, each on a fresh copy whose tables have not been read yet: the tables read afterwards are those of the untouched lattice
+        for k_, (oname, _) in enumerate(panel_ops(l)):
+            l2 = zoo.rebuild(l)
+            try:
+                with warnings.catch_warnings():
+                    warnings.simplefilter("ignore")
+                    panel_ops(l2)[k_][1]()
+            except Exception:
+                continue
+            try:
+                after = tables_of(l2)
+            except Exception as ex:
+                ctx.impl_violation(f"{name}: reading the tables for the first time after {oname} raised {type(ex).__name__}: {ex}", dict(case=name, after=oname, first_access=True, lattice=zoo.lat_to_json(l))); break
+            if after != before:
+                key = [k for k in before if before[k] != after[k]]
+                ctx.impl_violation(f"{name}: table(s) {key} read for the first time after {oname}(lattice) are not those of the same lattice left alone",
+                                   dict(case=name, after=oname, first_access=True, tables=key, lattice=zoo.lat_to_json(l))); break
+            ctx.count("operations_before_first_table_access")
         ctx.case((name, "tables after operations"), nontrivial=len(ran) >= 4)
         ctx.count("operation_panels_run")
+    # two lattices alive at once, their tables read in turns: each lattice's tables are its own
+    pool = [(n_, l_) for n_, f_, l_ in keep if l_.n_edges >= 3][:: max(1, len(keep) // (8 if ctx.tier == "quick" else 40))]
+    for (na, la), (nb, lb_) in zip(pool, pool[1:] + pool[:1]):
+        try:
+            ta, tb_ = tables_of(zoo.rebuild(la)), tables_of(zoo.rebuild(lb_))
+        except Exception:
+            continue
+        for order in ("plaquettes of both first", "one table at a time"):
+            A, B = zoo.rebuild(la), zoo.rebuild(lb_)
+            try:
+                if order == "plaquettes of both first":
+                    _ = A.plaquettes; _ = B.plaquettes
+                    got_a, got_b = tables_of(A), tables_of(B)
+                else:
+                    _ = A.plaquettes; _ = B.plaquettes; x1 = A.vertices.adjacent_plaquettes; _ = B.n_plaquettes; x2 = B.edges.adjacent_plaquettes; x3 = A.edges.adjacent_plaquettes; x4 = B.vertices.adjacent_plaquettes
+                    got_b, got_a = tables_of(B), tables_of(A)
+            except Exception as ex:
+                ctx.impl_violation(f"{na} and {nb} alive together ({order}): reading the tables raised {type(ex).__name__}: {ex}", dict(case=na, other=nb, order=order, lattice=zoo.lat_to_json(la), other_lattice=zoo.lat_to_json(lb_))); break
+            for nm, got, want in ((na, got_a, ta), (nb, got_b, tb_)):
+                if got != want:
+                    key = [k for k in want if want[k] != got[k]]
+                    ctx.impl_violation(f"{nm}: with a second lattice alive ({order}) its table(s) {key} are not its own", dict(case=na, other=nb, order=order, tables=key, lattice=zoo.lat_to_json(la), other_lattice=zoo.lat_to_json(lb_)))
+            ctx.case((na, nb, "interleaved", order), nontrivial=True)
     # the same graph (vertex count, edge indices, crossings) drawn differently, one lattice right after the other in the same process: mirror images and rotated
     # copies of open lattices have the same arrays except for the positions, and a different cyclic order round every vertex
     for name, lb in [("wheel12", eg.higher_coordination_number_example(12)), ("two_triangles", eg.two_triangles()), ("tutte", eg.tutte_graph()), ("tri_square_pent", eg.tri_square_pent()),
